@@ -673,7 +673,7 @@ fn format_unix_timestamp(secs: i64) -> String {
         (days - 146096) / 146097
     };
     let doe = (days - era * 146097) as u32;
-    let yoe = (doe - doe / 1461 + doe / 36524 - doe / 146097) / 365;
+    let yoe = (doe - doe / 1460 + doe / 36524 - doe / 146096) / 365;
     let y = yoe as i64 + era * 400;
     let doy = doe - (365 * yoe + yoe / 4 - yoe / 100);
     let mp = (5 * doy + 2) / 153;
